@@ -128,6 +128,7 @@ def run_cache_form(base, form):
     def loop_time():
         return sch.clock
     seams = AsyncioSeams(aa).install()
+    sch.seams = seams
     install_policy()
     try:
         try:
@@ -308,6 +309,7 @@ def run_multi(prog, sspec, solo_of=None):
     sch.log('prog', json.dumps(prog, sort_keys=True))
     w = MultiWorld(prog, sch, aa)
     seams = AsyncioSeams(aa).install()
+    sch.seams = seams
     install_policy()
     end = 'normal'
     try:
